@@ -90,6 +90,7 @@ def run(ctx):
         runs = runs[ctx.seed % stride::stride]
         ctx.exhaustive = False
     runs += extra         # seeded random data sets beyond the enumerated scope (larger, 1-3 dimensions, scaled)
+    large = ce.large_runs(rng, 2 if ctx.tier == "quick" else 8)
     traces = core.pmap(cc.record, runs, chunk=100)
     for tr in traces:
         res_ev = [e for e in tr["events"] if e["ev"] == "result"]
@@ -100,3 +101,5 @@ def run(ctx):
                  sample={k: tr[k] for k in ("pts", "metric", "algo", "form", "dtype", "k", "cut", "init", "sweeps")} |
                         {"result": res_ev[0]} if nontriv and tr["algo"] == "hybrid" else None)
     ce.judge(ctx, ce.validate(ctx, traces, "clustering traces"))
+    # hundreds of frames, more than 128 clusters: the result alone is judged (Trace_ClusterLarge.tla)
+    ce.judge_large(ctx, ce.validate_large(ctx, core.pmap(cc.record, large, chunk=1)))
